@@ -6,6 +6,7 @@ package transfer
 
 import (
 	"bytes"
+	"context"
 	"encoding/binary"
 	"io"
 	"runtime"
@@ -57,4 +58,13 @@ func TestVPReplayC15ResumeInfoBitmap(t *testing.T) {
 	in = append(in, make([]byte, 8+4)...)               // stream id, total chunks
 	in = append(in, 0x40, 0, 0, 0)                      // bitmap length 1 GiB
 	vpCheck(t, "readFileResumeInfo", in, func(s Stream) error { _, _, err := readControlMessage(s); return err })
+}
+
+func TestVPReplayC15LegacyRecvManifest(t *testing.T) {
+	in := append([]byte(manifestMagicBytes), 0x40, 0, 0, 0) // 1 GiB of JSON announced, none sent
+	dir := t.TempDir()
+	vpCheck(t, "RecvManifest", in, func(s Stream) error {
+		_, err := RecvManifest(context.Background(), s, dir, nil)
+		return err
+	})
 }
